@@ -296,6 +296,15 @@ where
         &self.inner.spawner
     }
 
+    /// Verification harness only: see `BlockEngine::verif_mark_probation`. No effect on other engines.
+    #[cfg(feature = "verif")]
+    pub fn verif_mark_probation(&self) {
+        let any: &dyn std::any::Any = self.inner.engine.as_ref();
+        if let Some(engine) = any.downcast_ref::<crate::engine::block::engine::BlockEngine<K, V, P>>() {
+            engine.verif_mark_probation();
+        }
+    }
+
     /// Wait for the ongoing flush and reclaim tasks to finish.
     pub async fn wait(&self) {
         self.inner.engine.wait().await
